@@ -61,6 +61,18 @@ func VerifC17Map() {
 		}
 	}
 	vers := []mapVer{{Map[string, uint64]{}, &vnd.Map{}}}
+	if big := vnd.Param("BIGPRE", 0); big > 0 {
+		// key "p" plus BIGPRE keys "p"+byte: the node of "p" is a node16/48 carrying a value
+		m0 := Map[string, uint64]{}.Set("p", 1)
+		md := &vnd.Map{}
+		md.Put([]byte("p"), 1)
+		for i := 0; i < big; i++ {
+			k := string([]byte{'p', byte(0x20 + 4*i)})
+			m0 = m0.Set(k, uint64(2+i))
+			md.Put([]byte(k), uint64(2+i))
+		}
+		vers = append(vers, mapVer{m0, md})
+	}
 	for i := 0; i < N; i++ {
 		src := vnd.IntRange("src", 0, len(vers)-1)
 		base := vers[src]
